@@ -73,6 +73,10 @@ pub enum Req {
     ListAuthors,
     /// the set of content hashes the store reports for garbage-collection protection
     Hashes,
+    /// author keys of the store: local writes need the author's key to be present
+    DeleteAuthor { a: u8 },
+    ImportAuthor { a: u8 },
+    ExportAuthor { a: u8 },
 }
 
 #[derive(Serialize, Deserialize, Clone, Debug)]
@@ -223,7 +227,7 @@ impl Scenario for ActorScen {
                 // opens, writes, deletions, remote inserts, reconciliation, reads that commit, flushes
                 *rng.pick(&[0u64, 0, 1, 6, 12, 13, 14, 15, 16, 17, 18, 19, 20, 21, 24, 25, 29, 26, 38, 39, 39, 40, 42, 46, 47])
             } else {
-                rng.below(49)
+                rng.below(50)
             };
             let req = match roll {
                 0..=5 => Req::Open { d, sync: rng.chance(1, 2), sub: rng.chance(1, 4) },
@@ -249,13 +253,18 @@ impl Scenario for ActorScen {
                 46 => Req::ListDocs,
                 47 => Req::ListAuthors,
                 48 => Req::Hashes,
+                49 => match rng.below(3) {
+                    0 => Req::DeleteAuthor { a: rng.below(2) as u8 },
+                    1 => Req::ImportAuthor { a: rng.below(2) as u8 },
+                    _ => Req::ExportAuthor { a: rng.below(2) as u8 },
+                },
                 _ => if i > n / 2 && rng.chance(1, 3) && !self.crash_focus { Req::Shutdown } else { Req::Flush },
             };
             if matches!(req, Req::Shutdown) {
                 if shut { continue; }
                 shut = true;
             }
-            let is_read = matches!(req, Req::GetExact { .. } | Req::GetState { .. } | Req::GetPolicy { .. } | Req::GetPeers { .. } | Req::HasNews { .. } | Req::ListDocs | Req::ListAuthors | Req::Hashes);
+            let is_read = matches!(req, Req::GetExact { .. } | Req::GetState { .. } | Req::GetPolicy { .. } | Req::GetPeers { .. } | Req::HasNews { .. } | Req::ListDocs | Req::ListAuthors | Req::Hashes | Req::ExportAuthor { .. });
             if is_read && rng.chance(1, 5) {
                 steps.push(AStep::SendDropReply { client, req });
             } else {
@@ -375,6 +384,9 @@ fn submit(h: &SyncHandle, req: &Req, streams: &mut Vec<Stream>, idx: usize, expe
         Req::GetPolicy { d } => Box::pin(async move { Reply::Policy(e2s(h.get_download_policy(w.doc_id(d)).await).map(|p| postcard::to_stdvec(&p).unwrap_or_default())) }),
         Req::RegisterPeer { d, peer } => Box::pin(async move { Reply::Unit(e2s(h.register_useful_peer(w.doc_id(d), w.peers[peer as usize]).await)) }),
         Req::GetPeers { d } => Box::pin(async move { Reply::Peers(e2s(h.get_sync_peers(w.doc_id(d)).await)) }),
+        Req::DeleteAuthor { a } => Box::pin(async move { Reply::Unit(e2s(h.delete_author(w.author_id(a % 2)).await)) }),
+        Req::ImportAuthor { a } => Box::pin(async move { Reply::Unit(e2s(h.import_author(w.authors[a as usize % 2].clone()).await).map(|_| ())) }),
+        Req::ExportAuthor { a } => Box::pin(async move { Reply::Bool(e2s(h.export_author(w.author_id(a % 2)).await).map(|o| o.is_some())) }),
         Req::Hashes => Box::pin(async move {
             match h.content_hashes().await {
                 Err(e) => Reply::Hashes(Err(format!("{e:#}"))),
@@ -434,9 +446,16 @@ fn submit(h: &SyncHandle, req: &Req, streams: &mut Vec<Stream>, idx: usize, expe
 }
 
 /// Apply a request to the sequential model and say what the reply must be.
-fn model_apply(m: &mut [MDoc], req: &Req, clock: u64, alive: &mut bool, stream_expect: &mut Option<Vec<Ent>>, cx: &mut Cx) -> Expect {
+fn model_apply(m: &mut [MDoc], authors: &mut [bool; 2], req: &Req, clock: u64, alive: &mut bool, stream_expect: &mut Option<Vec<Ent>>, cx: &mut Cx) -> Expect {
     if !*alive {
         return Expect::Err;
+    }
+    // a local write needs the key of its author
+    if let Req::InsertLocal { a, .. } | Req::DeletePrefix { a, .. } = req {
+        if !authors[*a as usize % 2] {
+            cx.probe("local_write_without_author_key");
+            return Expect::Err;
+        }
     }
     let open = |d: &MDoc| d.handles > 0;
     match req {
@@ -670,9 +689,18 @@ fn model_apply(m: &mut [MDoc], req: &Req, clock: u64, alive: &mut bool, stream_e
             v.sort();
             Expect::List(v)
         }
+        Req::DeleteAuthor { a } => {
+            authors[*a as usize % 2] = false;
+            Expect::Ok
+        }
+        Req::ImportAuthor { a } => {
+            authors[*a as usize % 2] = true;
+            Expect::Ok
+        }
+        Req::ExportAuthor { a } => Expect::Bool(authors[*a as usize % 2]),
         Req::ListAuthors => {
             let w = world();
-            let mut v: Vec<([u8; 32], u8)> = (0..2).map(|a| (w.author_id(a).to_bytes(), 0u8)).collect();
+            let mut v: Vec<([u8; 32], u8)> = (0..2u8).filter(|a| authors[*a as usize]).map(|a| (w.author_id(a).to_bytes(), 0u8)).collect();
             v.sort();
             Expect::List(v)
         }
@@ -785,6 +813,9 @@ fn req_name(r: &Req) -> &'static str {
         Req::ListDocs => "list-docs",
         Req::ListAuthors => "list-authors",
         Req::Hashes => "content-hashes",
+        Req::DeleteAuthor { .. } => "delete-author",
+        Req::ImportAuthor { .. } => "import-author",
+        Req::ExportAuthor { .. } => "export-author",
     }
 }
 
@@ -831,6 +862,7 @@ async fn run(plan: &ActorPlan, cx: &mut Cx, cap_focus: bool, removal_focus: bool
     let mut idx = 0usize;
     let mut returned: Option<iroh_docs::store::Store> = None;
     let mut last_by_client: BTreeMap<u8, usize> = BTreeMap::new();
+    let mut authors = [true, true];
     // entries of every document after each request, in send order (index = request number), and
     // the number of the last request known to be durable (an acknowledged flush)
     let mut snapshots: Vec<Vec<RefDoc>> = vec![m.iter().map(|d| d.doc.clone()).collect()];
@@ -880,7 +912,7 @@ async fn run(plan: &ActorPlan, cx: &mut Cx, cap_focus: bool, removal_focus: bool
                 }
                 idx += 1;
                 let mut stream_expect = None;
-                let mut expect = model_apply(&mut m, req, clock, &mut alive, &mut stream_expect, cx);
+                let mut expect = model_apply(&mut m, &mut authors, req, clock, &mut alive, &mut stream_expect, cx);
                 snapshots.push(m.iter().map(|d| d.doc.clone()).collect());
                 if matches!(req, Req::GetMany { .. } | Req::ListDocs | Req::ListAuthors) && matches!(expect, Expect::Err) {
                     // streaming requests only report whether the request could be queued; after a
